@@ -173,6 +173,7 @@ func generate() {
 	execLine("zone America/New_York")
 	genErrorPaths()
 	genBbs()
+	genApi()
 	execLine("zone Pacific/Kiritimati") // UTC+14: another date than Taipei for most of the day
 	genRaces()
 	genReindex()
@@ -640,6 +641,35 @@ func genPar() {
 	execLine("par 2 1 61 5")
 	execLine(fmt.Sprintf("file %s absent", hx.Hex([]byte(artName('M', 1)))))
 	execLine("par 2 1 61 5")
+}
+
+// the API handler (api.CreateComment) with every type value 0..9 and a few beyond: whatever it accepts must be a
+// push, a boo or an arrow; and the time stamp shared with the rest of the server: another stamp a whole number
+// of days ago at the same minute, then a comment - its line must carry today's date
+func genApi() {
+	var dir []byte
+	for k := 0; k < 3; k++ {
+		dir = append(dir, mkRec(artName('M', k), int8(k*10), 0, k)...)
+	}
+	ip := ipArr("127.0.0.1")
+	for round, zone := range []string{"UTC", "Asia/Kathmandu"} {
+		execLine("zone " + zone)
+		execLine(resetLine(attrOf(round), false, round == 0, []byte("body\n"), dir))
+		types := []int{0, 1, 2, 3, 4, 5, 6, 7, 8, 9, 10, 127, 128, 255}
+		for i, t := range types {
+			execLine(commentLine("api", "sysop", sysopID[:], artName('M', i%3), t, randText(20), ip))
+		}
+		for i, days := range []int{1, 2, 7, 30, 365} {
+			execLine(fmt.Sprintf("stamp %d", days))
+			via := []string{"api", "bbs", "ptt"}[i%3]
+			execLine(commentLine(via, "sysop", sysopID[:], artName('M', i%3), 1+i%3, []byte("after a stamp of another day"), ip))
+		}
+		execLine("dump")
+	}
+	execLine("stamp 401")
+	execLine("stamp x")
+	execLine("begin t0 foreign" + strings.TrimPrefix(commentLine("api", "sysop", sysopID[:], artName('M', 0), 1, []byte("x"), ip), "comment"))
+	execLine("fcomment 3" + strings.TrimPrefix(commentLine("api", "sysop", sysopID[:], artName('M', 0), 1, []byte("x"), ip), "comment"))
 }
 
 // random histories: 1-30 comments on 2-6 articles
